@@ -127,6 +127,23 @@ def node_of(fn: Any) -> Optional[str]:
     return nid if isinstance(nid, str) else None
 
 
+def node_behind(fn: Any, args: tuple = ()) -> Any:
+    """The ExecNode whose bound `execute` is somewhere in a callable handed to the pool: the callable itself, a chain of
+    functools.partial objects, or one of the positional arguments (e.g. `ctx.run, partial(xn.execute, ...)`)."""
+    todo = [fn] + list(args)
+    seen = 0
+    while todo and seen < 12:
+        seen += 1
+        x = todo.pop(0)
+        if isinstance(x, functools.partial):
+            todo = [x.func] + list(x.args) + todo
+            continue
+        owner = getattr(x, "__self__", None)
+        if owner is not None and isinstance(getattr(owner, "id", None), str) and hasattr(owner, "resource"):
+            return owner
+    return None
+
+
 # ------------------------------------------------------------------------------- pool seam
 class SimFuture(cf.Future):
     def __init__(self) -> None:
@@ -198,9 +215,12 @@ class SimPool(cf.Executor):
         if self.closed:
             raise RuntimeError("cannot schedule new futures after shutdown")
         f = SimFuture()
-        nid = node_of(fn)
+        owner_ = node_behind(fn, a)
+        nid = owner_.id if owner_ is not None else node_of(fn)
         f.nid = nid
-        is_async = isinstance(fn, functools.partial)
+        # the node's own resource says whether it is an async-thread node (how the callable is wrapped is internal)
+        res_ = getattr(getattr(owner_, "resource", None), "name", None) if owner_ is not None else None
+        is_async = (res_ == "async_thread") if res_ is not None else isinstance(fn, functools.partial)
         tok = rt.token_for_scheduler(self)
         if tok is None:
             tok = self.token
